@@ -4,7 +4,26 @@
   Imports only `Model/` and `Drive/` (no Mathlib, no proofs) so it links as a native executable.
 -/
 import GEVerif.Model.Sexp
+import GEVerif.Drive.C01
+import GEVerif.Drive.C02
+import GEVerif.Drive.C03
+import GEVerif.Drive.C04
+import GEVerif.Drive.C05
+import GEVerif.Drive.C06
+import GEVerif.Drive.C07
+import GEVerif.Drive.C08
+import GEVerif.Drive.C09
+import GEVerif.Drive.C10
+import GEVerif.Drive.C11
+import GEVerif.Drive.C12
+import GEVerif.Drive.C13
+import GEVerif.Drive.C14
+import GEVerif.Drive.C15
+import GEVerif.Drive.C16
+import GEVerif.Drive.C17
 import GEVerif.Drive.C18
+import GEVerif.Drive.C19
+import GEVerif.Drive.C20
 
 open GEVerif
 
@@ -13,7 +32,26 @@ def dispatch (line : String) : String :=
   | some (Sexp.list (Sexp.atom p :: rest)) =>
     let r : Option Sexp :=
       match p with
+      | "C01" => Drive.C01.handle rest
+      | "C02" => Drive.C02.handle rest
+      | "C03" => Drive.C03.handle rest
+      | "C04" => Drive.C04.handle rest
+      | "C05" => Drive.C05.handle rest
+      | "C06" => Drive.C06.handle rest
+      | "C07" => Drive.C07.handle rest
+      | "C08" => Drive.C08.handle rest
+      | "C09" => Drive.C09.handle rest
+      | "C10" => Drive.C10.handle rest
+      | "C11" => Drive.C11.handle rest
+      | "C12" => Drive.C12.handle rest
+      | "C13" => Drive.C13.handle rest
+      | "C14" => Drive.C14.handle rest
+      | "C15" => Drive.C15.handle rest
+      | "C16" => Drive.C16.handle rest
+      | "C17" => Drive.C17.handle rest
       | "C18" => Drive.C18.handle rest
+      | "C19" => Drive.C19.handle rest
+      | "C20" => Drive.C20.handle rest
       | _ => none
     match r with
     | some s => toString s
